@@ -18,10 +18,17 @@ def build_native(overlay_dir, example, log_path, release=False):
     # optimised, but with arithmetic overflow checks ON: an overflow that would panic in a debug build must not go unnoticed (C05)
     env = dict(os.environ, CARGO_NET_OFFLINE='true', RUSTFLAGS='--cfg verif_rt -Awarnings' + (' -C overflow-checks=on' if release else ''), CARGO_TERM_COLOR='never')
     cmd = ['cargo', 'build', '--offline', '--example', example] + (['--release'] if release else [])
-    with open(log_path, 'w') as log:
-        rc = subprocess.run(cmd, cwd=overlay_dir, env=env, stdout=log, stderr=subprocess.STDOUT).returncode
     exe = os.path.join(overlay_dir, 'target', 'release' if release else 'debug', 'examples', example)
-    return rc == 0 and os.path.exists(exe), exe
+    for attempt in range(3):
+        with open(log_path, 'w') as log:
+            rc = subprocess.run(cmd, cwd=overlay_dir, env=env, stdout=log, stderr=subprocess.STDOUT).returncode
+        if rc == 0 and os.path.exists(exe):
+            return True, exe
+        txt = open(log_path, errors='replace').read()
+        if re.search(r'^error(\[E\d+\])?: (?!could not compile)', txt, re.M) and 'signal: 9' not in txt and 'SIGKILL' not in txt:
+            break          # a real compile error: retrying cannot help
+        time.sleep(20)     # the compiler was killed / interrupted (memory pressure from other jobs): try again
+    return False, exe
 
 
 class Context:
